@@ -36,9 +36,9 @@ Seek(whence, o) ==
 Read(n) ==
   /\ Op /\ ~closed
   /\ IF pos >= Length THEN
-        /\ last' = [a |-> "Read", n |-> n, k |-> 0, res |-> "eof"] /\ UNCHANGED <<pos, complete>>
+        /\ last' = [a |-> "Read", n |-> n, got |-> 0, res |-> "eof"] /\ UNCHANGED <<pos, complete>>
      ELSE IF cancelled \/ dead THEN
-        /\ last' = [a |-> "Read", n |-> n, k |-> 0, res |-> "error"] /\ UNCHANGED <<pos, complete>>
+        /\ last' = [a |-> "Read", n |-> n, got |-> 0, res |-> "error"] /\ UNCHANGED <<pos, complete>>
      ELSE
         LET abs  == Offset + pos
             i    == abs \div PS
@@ -46,7 +46,7 @@ Read(n) ==
             k    == Min(room, TLen - abs)
         IN /\ pos' = pos + k
            /\ complete' = complete \cup {i}                          \* supplied by the seed if it was missing
-           /\ last' = [a |-> "Read", n |-> n, k |-> k, res |-> IF pos + k = Length THEN "eof" ELSE "ok"]
+           /\ last' = [a |-> "Read", n |-> n, got |-> k, res |-> IF pos + k = Length THEN "eof" ELSE "ok"]
   /\ UNCHANGED <<dead, cancelled, closed>>
 
 Evict(S) ==
